@@ -52,6 +52,10 @@ type Server struct {
 	wg         *sync.WaitGroup
 	onConnect  ConnectHook
 	onClose    TerminateHook
+	// shutdownLock orders the registration of accepted connections (wg.Add) against Shutdown:
+	// once shuttingDown is set no connection is registered anymore.
+	shutdownLock sync.Mutex
+	shuttingDown bool
 }
 
 // ConnectHook wraps the configured connectHook function, calling it with the provided context.
@@ -99,6 +103,8 @@ func NewServer(listener net.Listener, handler RequestHandler) *Server {
 		new(sync.WaitGroup),
 		nil,
 		nil,
+		sync.Mutex{},
+		false,
 	}
 }
 
@@ -143,7 +149,15 @@ func (srv *Server) Serve() error {
 			//TODO: Return a shutdown error if shutdown has been requested
 			return err
 		}
+		srv.shutdownLock.Lock()
+		if srv.shuttingDown {
+			// Accepted concurrently with Shutdown: it must not be served (Shutdown may already be waiting).
+			srv.shutdownLock.Unlock()
+			_ = conn.Close()
+			return ErrShutdown
+		}
 		srv.wg.Add(1)
+		srv.shutdownLock.Unlock()
 		go srv.handleConn(conn)
 	}
 }
@@ -158,6 +172,9 @@ func (srv *Server) Serve() error {
 // Returns any error encountered while closing the listener.
 func (srv *Server) Shutdown() error {
 	srv.logger.Warn("Shutting down")
+	srv.shutdownLock.Lock()
+	srv.shuttingDown = true
+	srv.shutdownLock.Unlock()
 	// 1. Close listener to prevent new incoming conections
 	err := srv.listener.Close()
 	// 2. Cancel recvCtx to stop receiving new requests
